@@ -136,6 +136,12 @@ CLAIMED["C06"] = _p("TLC enumerates, per backend, queries over every collection 
                     "requests, the link libraries in the rendered CMake file, and on miniAOD the tokens (declared+initialised with exactly the used tags).",
                     "DESIGN.md section 5 C06")
 
+CLAIMED["C11"] = _p("The spec carries a table of C++ functions (spec/Fns.tla) with known asymmetric meanings whose parameter names collide on purpose with method names used "
+                    "in actual arguments, with each other as prefixes, and with the result name; function, method and collection-returning styles, a renamed result, an "
+                    "include file that the code needs. TLC enumerates every function x actual-argument tuple (incl. nested calls); the compiled job's values are validated "
+                    "by TLC against the function's meaning, so a captured, swapped or half-substituted argument, a lost include or a wrongly scoped result shows up as a "
+                    "compile error or wrong value.", "DESIGN.md section 5 C11")
+
 PENDING = "check not built yet in this round (planned, see DESIGN.md section 11); not claimed until its machinery exists"
 
 
